@@ -677,6 +677,7 @@ impl Failure {
 const SIG_ALIEN_TYPE_LOAD: &str = "c10:copy-move-keeps-element-type-of-source-parent";
 const SIG_PARTIAL_MERGE: &str = "c11:failed-load-partial-merge";
 const SIG_COLLISION_C13: &str = "c13:copy-of-colliding-container";
+const SIG_ALIEN_TYPE_C13: &str = "c13:copy-keeps-element-type-of-source-parent";
 const SIG_NONTRANSITIVE: &str = "c14:comparison-not-transitive-missing-definition-ref";
 
 /// serialized text of (a duplicate of `top`'s model, sorted at the place of `top`) and of (a duplicate in which every element below
@@ -1611,6 +1612,13 @@ impl Checker {
         let rmfile_pre = if verb == "rmfile" && self.kind == Kind::Files && self.on("C10") { self.rmfile_pre(&words) } else { None };
         let c13 = self.kind == Kind::Copy && self.on("C13");
         let src_ser: Option<String> = if c13 && verb == "copy" { subj.as_ref().map(|x| x.serialize()) } else { None };
+        // "a copy into an older or newer version omits exactly the parts not permitted there and still validates": the number of
+        // incompatibilities each file of the destination model has with ITS OWN version must not grow by a copy
+        let compat_pre: Vec<(ArxmlFile, usize)> = if c13 && verb == "copy" {
+            dest.as_ref().and_then(|p| p.model().ok()).map(|m| m.files().map(|f| { let n = f.check_version_compatibility(f.version()).0.len(); (f, n) }).collect()).unwrap_or_default()
+        } else {
+            vec![]
+        };
         let mut pair_pre: Vec<(usize, Side, String)> = vec![];
         if c13 && !matches!(verb, "reset" | "newmodel" | "mkfile") {
             for (pi, (src, cp)) in self.pairs.iter().enumerate() {
@@ -1765,6 +1773,23 @@ impl Checker {
                         out.push(Failure::new("C13", "not-independent", format!("`{req}` addresses only the {} of a deep copy, but the serialization of the {} changed", if *side == Side::Cp { "copy" } else { "source" }, if *side == Side::Cp { "source" } else { "copy" })));
                     }
                 }
+                for (f, n) in &compat_pre {
+                    let (errs, _) = f.check_version_compatibility(f.version());
+                    // (a file that was not valid for its own version before is not judged: the copy may replicate that content)
+                    if *n == 0 && !errs.is_empty() {
+                        *self.counts.entry("oracle.c13_copy_left_incompatibility").or_insert(0) += 1;
+                        let what = match errs.iter().last() {
+                            Some(CompatibilityError::IncompatibleAttribute { element, attribute, .. }) => format!("attribute {attribute:?} of {}", element.xml_path()),
+                            Some(CompatibilityError::IncompatibleAttributeValue { element, attribute, attribute_value, .. }) => format!("value {attribute_value} of attribute {attribute:?} of {}", element.xml_path()),
+                            Some(CompatibilityError::IncompatibleElement { element, .. }) => format!("element {}", element.xml_path()),
+                            None => String::new(),
+                        };
+                        let msg = format!("`{req}`: the copy is not valid in the destination: the file was compatible with its own version {:?} before and has {} incompatibilities now; last: {what}", f.version(), errs.len());
+                        out.push(if self.alien_type { Failure::known("C13", SIG_ALIEN_TYPE_C13, msg) } else { Failure::new("C13", "copy-invalid-in-destination", msg) });
+                        break;
+                    }
+                }
+                *self.counts.entry("oracle.c13_copy_validity_checks").or_insert(0) += compat_pre.len() as u64;
                 if let (Some(s), Some(x)) = (&src_ser, &subj) {
                     if verb == "copy" {
                         let x = x.clone();
